@@ -70,7 +70,10 @@ def o_km(case):
     res = p["res"]
     ext = case["ext"]
     dom = [-ext * res * 0.25, ext * res, -ext * res * 0.5, ext * res * 0.5]
-    mxy = [0.0, 0.0]
+    # the receptor at the origin, or displaced by whole multiples of HALF a cell: exactly on a cell centre or exactly on a cell edge, in
+    # floating point (the comparisons x > 0 / x >= 0 and any search for "the first upwind column" differ only there)
+    hx, hy = case.get("half_cells", (0, 0))
+    mxy = [0.5 * res * hx, 0.5 * res * hy]
     gx, gy, f = real_fp(p, dom, mxy, None)
     exp, q = published(p, gx - mxy[0], gy - mxy[1])
     sc = max(exp.max(), 1e-300)
@@ -82,7 +85,9 @@ def o_km(case):
         return fail("C19/nonneg", "negative footprint value", None, ">= 0", float(f.min()), 0)
     if np.any(f[(gx - mxy[0]) <= 0] != 0):
         return fail("C19/downwind", "non-zero footprint in a downwind cell", None, 0, float(np.abs(f[(gx - mxy[0]) <= 0]).max()), 0)
-    if not np.allclose(f, f[::-1, :], rtol=1e-12, atol=1e-300):
+    if not np.all(np.isfinite(f)):
+        return fail("C19/finite", "footprint has non-finite cells (receptor %s half-cells from the origin)" % ([hx, hy],), None, "finite", int(np.sum(~np.isfinite(f))), 0)
+    if hy == 0 and not np.allclose(f, f[::-1, :], rtol=1e-12, atol=1e-300):
         return fail("C19/symmetry", "footprint is not symmetric about the wind axis", None, "symmetric", "asymmetric", 1e-12)
     # integer-typed inputs give the same footprint
     ip = dict(p)
@@ -248,6 +253,7 @@ def run(rng, tier, deep):
     correspond_scalar(items, st, tol=1e-9)
     for _ in range(budget(tier, deep, 40, 500)):
         run_oracle(st, o_km, dict(p=gen_par(rng), ext=int(rng.integers(6, 14)), half=int(rng.integers(4, 9)),
+                                  half_cells=[(0, 0), (int(rng.integers(-3, 9)), 0), (int(rng.integers(-3, 9)), int(rng.integers(-4, 5)))][int(rng.integers(3))],
                                   wd=float(rng.uniform(0, 360)), mxy=[float(rng.normal() * 3), float(rng.normal() * 3)]))
     for _ in range(budget(tier, deep, 6, 60)):
         p = gen_par(rng)
